@@ -33,6 +33,7 @@ THEOREMS = [
     'CC.C07_faithful_nonperiodic', 'CC.C07_harmonic', 'CC.C07_faithful',
     'CC.C07_ground', 'CC.C07_limits_dc', 'CC.C07_limits_zero_resistance',
     'CC.C07_limits_open_switch', 'CC.C07_open_switch_record', 'CC.C07_open_switch_network',
+    'CC.C07_zero_fundamental_counterexample',
 ]
 OPEN_STATEMENTS = []
 ASSUMPTIONS = [
@@ -160,11 +161,9 @@ def check_case(ctx, out, descs, w, wres, origin, tested=None):
         key = (kind, origin if origin != 'random' else '', w == 0, tested == c.id, min(non_ground.index(c), 4),
                s['branch'] is not None and s['branch']['e']['b'] != ['0', '0'], wres == WRES_DYADIC)
         if s['branch'] is None:
-            # the specification has no intended branch: legitimate for V_ref = 0 / w0 = 0; otherwise the
-            # component does not carry the values its kind needs — then the translator must not be fed it
-            legit = (kind in ('lamp', 'resistive_load') and c.value.get('V_ref') == 0) or \
-                    (kind.startswith('periodic') and c.value.get('w') == 0)
-            if not legit and kind in tr.transformers:
+            # the specification has no intended branch for this component (it does not carry the values its
+            # kind needs).  No exemption: a component its own constructor accepted must still translate
+            if kind in tr.transformers:
                 try:
                     tr.transformers[kind](c, w, wres)
                 except Exception as e:
@@ -414,6 +413,7 @@ def run(ctx, out):
         check_tables(ctx, out)
     check_periodic_symmetry(ctx, out)
     resolution_sweep(ctx, out)
+    check_accepted_translates(ctx, out)
     for descs, w, wres in CORPUS:
         check_case(ctx, out, descs, w, wres, 'corpus')
     rng = ctx.rng('kinds')
@@ -499,6 +499,40 @@ def periodic_symmetry_case(out, d, n, wres):
                       descs=[d], w=n * w0 + w0 / 2, wres=wres, harmonic=n)
     else:
         out.count('periodic_symmetry_ok')
+
+BOUNDARY = [('lamp', dict(P=2.0, V_ref=0.0)), ('resistive_load', dict(P=2.0, V_ref=0.0)),
+            ('lamp', dict(P=0.0, V_ref=1.0)), ('resistor', dict(R=0.0)), ('conductance', dict(G=0.0)),
+            ('capacitor', dict(C=0.0)), ('inductance', dict(L=0.0)),
+            ('ac_voltage_source', dict(V=1.0, R=0.0, w=0.0, phi=1.0)), ('ac_current_source', dict(I=1.0, G=0.0, w=0.0, phi=1.0)),
+            ('periodic_voltage_source', dict(wavetype='rect', V=1.0, w=0.0, phi=0.0, R=0.0)),
+            ('periodic_current_source', dict(wavetype='saw', I=1.0, w=0.0, phi=0.0, G=0.0))]
+
+def check_accepted_translates(ctx, out):
+    """an accepted circuit translates: whatever boundary value a constructor lets through (it may instead
+    reject it — C19 judges that), `transform_circuit` must give the component its branch without raising"""
+    from CircuitCalculator.Circuit import circuit as cc
+    for fn, args in BOUNDARY:
+        d = dict(fn=fn, id='B', nodes=['1', '0'], args=args)
+        out.evaluations += 1
+        try:
+            comp = gc.build(d)
+        except Exception:
+            out.count('boundary_rejected_at_construction:' + fn); continue
+        for w in (0.0, 1.0, 3.0):
+            inp = dict(components=gc.pretty([d]), w=w, w_resolution=1e-3)
+            try:
+                N = cc.transform_circuit(cc.Circuit([comp, gc.build(dict(fn='resistor', id='R', nodes=['1', '0'], args=dict(R=1.0)))]), w, 1e-3)
+            except Exception as e:
+                out.spec_fail(canon_of(fn, 'raises', exc=gc.tag(e)),
+                              f'{fn}({args}) is accepted by its constructor but transform_circuit raises {type(e).__name__}: {e}',
+                              inp, impl=dict(exception=repr(e)), descs=[d], w=w, wres=1e-3)
+                break
+            if [b.id for b in N.branches] != ['B', 'R']:
+                out.spec_fail(canon_of(fn, 'branch_missing'), f'{fn}({args}) is accepted but has no branch', inp,
+                              impl=[b.id for b in N.branches], descs=[d], w=w, wres=1e-3)
+                break
+        else:
+            out.count('boundary_translates:' + fn)
 
 def check_limits(ctx, out):
     from CircuitCalculator.Circuit import components as ccp, transformers as tr
